@@ -708,22 +708,32 @@ func stableRound(dir string, g int, emit func(map[string]interface{})) error {
 	return nil
 }
 
-// dupRound: five deputies (four signers make a block stable).  Block 1 (mined by deputy 1, confirmed by this node, deputy 2)
-// is followed by two confirm packets released at the same instant, carrying (r,s,v) and (r,n-s,v^1) of deputy 3's one
-// signature, then by deputy 4's confirm, then deputy 5's.  In every sequential order deputy 3 counts once.
+// dupRound: five deputies (four signers make a block stable).  Each of five blocks (confirmed by this node, deputy 2, unless
+// it is the miner) is followed by two confirm packets released at the same instant, carrying (r,s,v) and (r,n-s,v^1) of
+// ONE other deputy's signature.  In every sequential order that deputy counts once, so no block becomes stable.
 func dupRound(dir string, g int, emit func(map[string]interface{})) error {
 	const nd5 = 5
 	w := node.NewWorld(nd5, 1000)
 	w.GenesisTime = uint32(time.Now().Unix()) - 60
 	builder := w.NewNode(filepath.Join(dir, fmt.Sprintf("dbuilder%d", g)))
 	defer builder.Destroy()
-	blk, _, err := builder.Build(builder.Genesis, 0, 0, nil, fmt.Sprintf("d%d", g))
-	if err != nil {
-		return fmt.Errorf("dup round build: %v", err)
+	const chainLen = 5
+	var blocks []*types.Block
+	tip := builder.Genesis
+	for i := 0; i < chainLen; i++ {
+		blk, _, err := builder.Build(tip, i%nd5, 0, nil, fmt.Sprintf("d%d-%d", g, i))
+		if err != nil {
+			return fmt.Errorf("dup round build: %v", err)
+		}
+		blocks = append(blocks, blk)
+		tip = blk
 	}
 	n := w.NewNode(filepath.Join(dir, fmt.Sprintf("dnut%d", g)))
 	defer n.Destroy()
-	byHash := map[common.Hash]int{n.Genesis.Hash(): 0, blk.Hash(): 1}
+	byHash := map[common.Hash]int{n.Genesis.Hash(): 0}
+	for i, b := range blocks {
+		byHash[b.Hash()] = i + 1
+	}
 	var evs []map[string]interface{}
 	project := func(fl map[string]interface{}) {
 		stable, head := n.DP.StableBlock(), n.DP.CurrentBlock()
@@ -742,6 +752,7 @@ func dupRound(dir string, g int, emit func(map[string]interface{})) error {
 			unconf = append(unconf, byHash[b.Hash()])
 			sig(b)
 		})
+		sort.Ints(unconf)
 		for h := uint32(1); h <= stable.Height(); h++ {
 			if b, err := n.DB.GetBlockByHeight(h); err == nil {
 				chain = append(chain, byHash[b.Hash()])
@@ -764,27 +775,34 @@ func dupRound(dir string, g int, emit func(map[string]interface{})) error {
 		project(fl)
 		evs = append(evs, fl) // under chainLock
 	}
-	n.DP.InsertBlock(node.Copy(blk, nil))
-	var wg sync.WaitGroup
-	start := make(chan struct{})
-	for v := 0; v < 2; v++ {
-		wg.Add(1)
-		go func(v int) {
-			defer wg.Done()
-			sigs := []types.SignData{node.Sign(blk.Hash(), w.Keys[2], v)}
-			<-start
-			n.DP.InsertConfirms(blk.Height(), blk.Hash(), sigs)
-		}(v)
+	// every block of the chain: the block, then the two encodings of ONE other deputy's signature as two packets released
+	// at the same instant (a spinning barrier: both goroutines are running when they start), and nothing more - with the
+	// miner, this node and that deputy the block has three of the four signers it needs
+	for i, blk := range blocks {
+		n.DP.InsertBlock(node.Copy(blk, nil))
+		d := 0
+		for d+1 == self || d == i%nd5 {
+			d++
+		}
+		var wg sync.WaitGroup
+		var ready int32
+		for v := 0; v < 2; v++ {
+			wg.Add(1)
+			go func(v int) {
+				defer wg.Done()
+				sigs := []types.SignData{node.Sign(blk.Hash(), w.Keys[d], v)}
+				atomic.AddInt32(&ready, 1)
+				for t := 0; atomic.LoadInt32(&ready) < 2 && t < 50000000; t++ {
+				}
+				n.DP.InsertConfirms(blk.Height(), blk.Hash(), sigs)
+			}(v)
+		}
+		wg.Wait()
 	}
-	time.Sleep(2 * time.Millisecond)
-	close(start)
-	wg.Wait()
-	n.DP.InsertConfirms(blk.Height(), blk.Hash(), []types.SignData{node.Sign(blk.Hash(), w.Keys[3], 0)})
-	n.DP.InsertConfirms(blk.Height(), blk.Hash(), []types.SignData{node.Sign(blk.Hash(), w.Keys[4], g%2)})
 	time.Sleep(50 * time.Millisecond)
 	consensus.VerifEngineHook = nil
 	sort.Slice(evs, func(i, j int) bool { return evs[i]["seq"].(uint64) < evs[j]["seq"].(uint64) })
-	emit(map[string]interface{}{"ev": "reset", "beh": 2000 + g, "nd": nd5, "self": self, "parent": []int{0}, "miner": []int{1},
+	emit(map[string]interface{}{"ev": "reset", "beh": 2000 + g, "nd": nd5, "self": self, "parent": []int{0, 1, 2, 3, 4}, "miner": []int{1, 2, 3, 4, 5},
 		"stable": 0, "head": 0, "unconf": []int{}, "chain": []int{}})
 	for _, fl := range evs {
 		fl["beh"] = 2000 + g
